@@ -372,7 +372,10 @@ func (d *UserDelegate) SetMeta(b []byte) {
 }
 
 func (d *UserDelegate) NotifyMsg(b []byte) {
-	if g := d.Gate; g != nil {
+	d.mu.Lock()
+	g := d.Gate
+	d.mu.Unlock()
+	if g != nil {
 		<-g
 	}
 	d.mu.Lock()
